@@ -158,3 +158,79 @@ Theorem P_C18_rev_scan_in_bounds : forall d p k all_nodes,
   exists st, rev_scan d p k all_nodes = Ok st.
 Proof. exact rev_scan_total. Qed.
 Print Assumptions P_C18_rev_scan_in_bounds.
+
+(* ---- the HTTP handler composed with factories, calculation and renderer (Http.v, Proofs/HttpProofs.v) ---- *)
+From TrV Require Import Params Http Proofs.HttpProofs Properties.Common.
+From TrV Require Import Spec Admissible Optimal Server Render Proofs.ServerInv Proofs.EndToEnd.
+
+Theorem C18_http_route_classification : forall (uuid_of : Params.str -> option nat), forall sv status ep kvs acc egr, ep <> EAccess ->
+  wf_data_b (sv_data sv) = true -> cache_inv (sv_data sv) (sv_cache sv) ->
+  http_domain uuid_of (sv_data sv) ep kvs acc egr ->
+  let d := sv_data sv in
+  let resp := fst (http_serve uuid_of sv status ep kvs acc egr) in
+  (status <> 0%nat /\ resp = HttpR 200 (HDataError status)) \/
+  (status = 0%nat /\ (forall x, parse uuid_of d ep kvs <> POk x) /\
+   exists code, resp = HttpR 400 (HQueryError code) /\
+                route_defect (resolve uuid_of d) (services_of d) (fun _ _ => false) kvs code) \/
+  (status = 0%nat /\
+   exists c alt sid s, parse uuid_of d ep kvs = POk (c, alt) /\ cm_scen c = Some sid /\
+     find_scenario d sid = Some s /\ in_domain d s (params_with sid c) acc egr /\
+     route_answer_shape ep alt (echo_of_params (params_with sid c)) resp).
+Proof. exact HttpProofs.http_route_classification. Qed.
+Print Assumptions C18_http_route_classification.
+
+Theorem C18_http_access_parsed_never_400 : forall (uuid_of : Params.str -> option nat), forall sv kvs acc egr c alt,
+  wf_data_b (sv_data sv) = true -> cache_inv (sv_data sv) (sv_cache sv) ->
+  http_domain uuid_of (sv_data sv) EAccess kvs acc egr ->
+  parse uuid_of (sv_data sv) EAccess kvs = POk (c, alt) ->
+  let resp := fst (http_serve uuid_of sv 0 EAccess kvs acc egr) in
+  (exists b, resp = HttpR 200 b /\ body_echo b = Some (echo_of_common c)) \/
+  (cm_fwd c = true /\ resp = HttpR 0 (HBad BK_Hang)).
+Proof. exact HttpProofs.http_access_parsed. Qed.
+Print Assumptions C18_http_access_parsed_never_400.
+
+Theorem C18_http_route_success_meets_all_properties : forall (uuid_of : Params.str -> option nat), forall sv kvs acc egr rs total q,
+  wf_data_b (sv_data sv) = true -> cache_inv (sv_data sv) (sv_cache sv) ->
+  http_domain uuid_of (sv_data sv) ERoute kvs acc egr ->
+  fst (http_serve uuid_of sv 0 ERoute kvs acc egr) = HttpR 200 (HRoute rs total q) ->
+  let d := sv_data sv in
+  exists c alt p s r1 tl,
+    (* the parameters parsed, with the documented normalisations *)
+    parse uuid_of d ERoute kvs = POk (c, alt) /\ params_of_common c = Some p /\
+    find_scenario d (q_scenario p) = Some s /\ documented_params (resolve uuid_of d) kvs p /\
+    wf_params_b p = true /\
+    (* the echoed query is the parsed one *)
+    q = echo_of_params p /\
+    (* every route is a valid itinerary of the data within the limits of THAT p, with consistent totals *)
+    rs = r1 :: tl /\
+    (forall r, In r rs -> valid_itinerary_b d s p acc egr r = true /\ limits_ok_b d s p r = true /\
+                          totals_ok_b d p r = true) /\
+    (alt = false -> tl = [] /\ total = 1) /\
+    (alt = true -> NoDup (map (fun r => sort_nat (route_lines d r)) rs) /\
+                   Z.of_nat (length rs) <= 50 /\ Z.of_nat (length rs) <= total) /\
+    (* the first route is optimal, and no other route of the answer is better *)
+    first_route_optimal d s p acc egr r1 /\
+    (pos_hops_b d = true -> (q_fwd p = true -> q_maxfw p <= 0) ->
+       forall r, In r rs -> if q_fwd p then rt_arr r1 <= rt_arr r else rt_dep r <= rt_dep r1) /\
+    (* /v2/summary for the same key/value list *)
+    fst (http_serve uuid_of sv 0 ESummary kvs acc egr)
+      = HttpR 200 (HSummary (Z.of_nat (length rs)) (summary_lines d rs) q).
+Proof. exact HttpProofs.http_route_success. Qed.
+Print Assumptions C18_http_route_success_meets_all_properties.
+
+Theorem C18_http_no_routing_reason : forall (uuid_of : Params.str -> option nat), forall sv kvs acc egr rt q,
+  wf_data_b (sv_data sv) = true -> cache_inv (sv_data sv) (sv_cache sv) ->
+  http_domain uuid_of (sv_data sv) ERoute kvs acc egr ->
+  fst (http_serve uuid_of sv 0 ERoute kvs acc egr) = HttpR 200 (HNoRouting rt q) ->
+  let d := sv_data sv in
+  exists c alt p s,
+    parse uuid_of d ERoute kvs = POk (c, alt) /\ params_of_common c = Some p /\
+    find_scenario d (q_scenario p) = Some s /\ documented_params (resolve uuid_of d) kvs p /\
+    q = echo_of_params p /\
+    rt = route_reason_text (ReasonIff.expected_reason d s p acc egr) /\
+    (pos_hops_b d = true -> q_fwd p = true -> q_maxfw p <= 0 -> forall rides t, ~ admissible_fwd d s p acc egr rides t) /\
+    (pos_hops_b d = true -> q_fwd p = false -> forall dep0 rides, ~ admissible_rev d s p acc egr dep0 rides) /\
+    fst (http_serve uuid_of sv 0 ESummary kvs acc egr) = HttpR 200 (HSummary 0 [] q).
+Proof. exact HttpProofs.http_route_no_routing. Qed.
+Print Assumptions C18_http_no_routing_reason.
+
